@@ -165,3 +165,21 @@ Example C01_ex_documents :
   | _ => false
   end = true.
 Proof. vm_compute. reflexivity. Qed.
+
+(** The arguments of a client call.  client.service.f( *pos, **kw ) writes the request of the argument tuple in which the
+    sequential arguments fill the parameters in order, every name-based argument that is passed takes its parameter
+    WHATEVER its value (0, False, '' and the empty sequence included) and a parameter passed neither way is None; with
+    C01_call_fidelity, those are the values that reach the function. *)
+Theorem C01_call_named_args : forall (L : leaf_codec) (P : proto) (U0 : universe) (Sv : service) (fuel : nat)
+  (i : nat) (m : method) (hv : option (list val)) (pos : list val) (kw : list (text * val)),
+  client_request_named L P U0 Sv fuel i m hv pos kw
+  = client_request L P U0 Sv fuel i m hv (merge_args MergeKwWins (map f_name (m_params m)) pos kw).
+Proof. exact client_named_args. Qed.
+
+(** non-vacuity: f(5, b=False) and f(a=0) keep the falsy name-based values; the truthiness rule would lose them *)
+Example C01_ex_named_args :
+  merge_args MergeKwWins [[97]; [98]] [VLeaf (LInt 5)] [([98], VLeaf (LBool false))] = [VLeaf (LInt 5); VLeaf (LBool false)]
+  /\ merge_args MergeKwWins [[97]; [98]] [] [([97], VLeaf (LInt 0))] = [VLeaf (LInt 0); VNone]
+  /\ merge_args MergeKwWins [[97]; [98]] [VLeaf (LInt 5)] [([97], VLeaf (LInt 0))] = [VLeaf (LInt 0); VNone]
+  /\ merge_args MergeKwTruthyWins [[97]; [98]] [VLeaf (LInt 5)] [([97], VLeaf (LInt 0))] = [VLeaf (LInt 5); VNone].
+Proof. vm_compute. repeat split; reflexivity. Qed.
